@@ -258,9 +258,9 @@ Definition qm (l : list (list Q)) : list vec := map qv l.
 Definition qo (o : option Q) : option Qc := option_map Q2Qc o.
 (* one correspondence case: both variants of the model against what the two implementations returned *)
 Definition mkcfg (ad rn : option Q) (o2 : bool) (tl atl : Q) (mi mx : option nat) (raise : bool)
-                 (ep tn : Q) : cfg :=
+                 (ep tn : Q) (nres : nat) : cfg :=
   {| absdelta := qo ad; resnorm := qo rn; ord2 := o2; tol := qc tl; atol := qc atl;
-     miniter_o := mi; maxiter_o := mx; raise_npd := raise; nreset := 20; eps := qc ep; tiny := qc tn;
+     miniter_o := mi; maxiter_o := mx; raise_npd := raise; nreset := nres; eps := qc ep; tiny := qc tn;
      old_fallback := false; old_guards := false |}.
 Definition chk (n : nat) (M : list (list Q)) (j : list Q) (x0 : option (list Q)) (c : cfg) (tolx : Q) (fuel : nat)
                (fe : bool) (xe : list Q) (ie : Z) (ne : nat)
